@@ -55,7 +55,7 @@ def gen_name(rng, maxlen=8):
     s = "".join(rng.choice(NAME_CHARS) for _ in range(n))
     if rng.random() < 0.06:
         # legal 8.3 characters that mean something to a command-line parser or a shell when they come first ('-' excepted: argparse owns it)
-        s = rng.choice("@+=~#%&!^{}[]()$;'") + s[1:]
+        s = rng.choice("@+=~#%&!^{}[]()$;'*?,") + s[1:]
     return ("X" + s[1:]) if s.startswith("-") else s  # a leading '-' would be an option for argparse
 
 
